@@ -115,8 +115,8 @@ def containment_case(ctx, i):
 
 
 def run(ctx):
-    sched_suite.run_suite(ctx, PROF, ctx.scale(500, 30000), "c17", [time_oracle], nontrivial, signature_of)
-    for i in range(ctx.scale(150, 6000)):
+    sched_suite.run_suite(ctx, PROF, ctx.scale(2000, 120000), "c17", [time_oracle], nontrivial, signature_of)
+    for i in range(ctx.scale(300, 12000)):
         containment_case(ctx, i)
 
 
